@@ -10,5 +10,6 @@ import (
 const homeEnv = "USERPROFILE"
 
 func getFileOwner(stat fs.FileInfo) (int, int, error) {
-	return 0, 0, nil
+	// ownership is not tracked on Windows, negative values skip the chown
+	return -1, -1, nil
 }
